@@ -106,7 +106,7 @@ LINE_CLIENT = ['_leave_connected_state', '_write_loop', '_read_loop_polling', '_
 
 
 def line_decorate(rng, plan, hot=None, pool=None, stall=0.0,
-                  stalls=(2, 8, 8, 32, 256)):
+                  stalls=(2, 8, 8, 32)):
     """Turn ``plan`` into a line-granularity run (kernel.enable_lines)."""
     pool = pool or LINE_SERVER
     r = rng.random()
@@ -124,7 +124,7 @@ def line_decorate(rng, plan, hot=None, pool=None, stall=0.0,
         # (what an OS thread that lost the CPU looks like from outside); a
         # handful of such stalls, inside chosen functions
         spec['stall'] = rng.choice(list(stalls))
-        spec['max'] = rng.choice([2, 4, 8])
+        spec['max'] = rng.choice([1, 2, 4])
         spec['mean'] = rng.choice([2, 4, 8, 16])
         if not spec.get('focus'):
             spec['focus'] = sorted(rng.sample(pool, 2))
@@ -556,7 +556,7 @@ def client_race_cluster(rng, plan):
 
 
 def with_lines(gen, hot=None, p=0.25, cluster=0.5, few=0.3, stall=0.35,
-               stalls=(2, 8, 8, 32, 256)):
+               stalls=(2, 8, 8, 32)):
     """Wrap a plan generator: a share ``p`` of the plans that involve threaded
     code of the package run at line granularity."""
     def g(rng, tier, i):
